@@ -24,7 +24,7 @@ Prog_race == [a1 |-> <<O("alloc", 1, 1), O("alloc", 2, 1), O("free", 1, 0), O("f
 Prog_deep == [a1 |-> <<O("alloc", 1, 3), O("free", 1, 0), O("alloc", 2, 1)>>,
               a2 |-> <<O("alloc", 3, 1), O("free", 1, 0), O("free", 2, 0), O("alloc", 1, 2)>>,
               d1 |-> <<O("bytes", 0, 0), O("bytes", 0, 0)>>]
-Prog_two == [a1 |-> <<O("alloc", 1, 3), O("free", 2, 0)>>,
+Prog_two == [a1 |-> <<O("alloc", 1, 4), O("free", 2, 0)>>,
              a2 |-> <<O("alloc", 2, 2), O("free", 1, 0)>>,
              d1 |-> <<O("bytes", 0, 0)>>]
 ==========================================================================
